@@ -44,6 +44,8 @@ func main() {
 		err = gateMode(num(2), int(num(3)), enc)
 	case "wire":
 		err = wireMode(num(2), enc)
+	case "auth":
+		err = authMode(num(2), enc)
 	case "dex": // dex <seed> <runs> <rounds> <small|big> <out>
 		err = dexMode(num(2), int(num(3)), int(num(4)), os.Args[5] == "big", enc)
 	case "swap": // swap <seed> <runs> <steps> <out>
